@@ -114,7 +114,8 @@ KINDS = {
                 dict(max_repeats=2, seed=0, accel=False, parallel=False)),
 }
 
-LOCS = ["memory", "disk-split", "disk-flat", "disk-auto"]
+LOCS = ["memory", "disk-split", "disk-flat", "disk-auto",
+        "disk-flat-then-auto", "disk-split-then-auto"]
 SUB_POOL = ["base", "perm-in-tensor", "perm-output", "extra-scalar",
             "nonidentical", "size"]
 
@@ -125,8 +126,9 @@ def configs(tier):
         for hm in ("a", "b"):
             for loc in LOCS:
                 for ow in (False, True, "improved"):
-                    if kind != "hyper" and (loc == "disk-flat" or
-                                            ow is True and hm == "b"):
+                    if kind != "hyper" and (loc in ("disk-flat",
+                                                    "disk-split-then-auto")
+                                            or ow is True and hm == "b"):
                         continue  # reduced product for the other two kinds
                     out.append((kind, hm, loc, ow))
     return out
@@ -166,10 +168,17 @@ class World:
         kw.update(hash_method=self.hm, overwrite=self.ow)
         if self.dir is not None:
             kw["directory"] = self.dir
-            kw["directory_split"] = {"disk-split": True, "disk-flat": False,
-                                     "disk-auto": "auto"}[self.loc]
+            first = not getattr(self, "_made_one", False)
+            kw["directory_split"] = {
+                "disk-split": True, "disk-flat": False, "disk-auto": "auto",
+                # written with an explicit layout, re-opened with 'auto'
+                "disk-flat-then-auto": False if first else "auto",
+                "disk-split-then-auto": True if first else "auto",
+            }[self.loc]
         kw.update(extra)
         opt = getattr(self.ctg, self.cls_name)(**kw)
+        if "cache_only" not in extra:
+            self._made_one = True
         orig = opt._get_suboptimizer
 
         def counting():
@@ -289,20 +298,26 @@ def run_history(cfg, hist, P, root, res):
                                 sorted(m["names"]), step))
         model.setdefault(hk, {"names": set()})["names"].add(name)
         first_path.setdefault(hk, canon_path(tree))
-        # cache_only reader on the same store: must answer without searching
-        n1 = w.searches
-        try:
-            ro = w.make(cache_only=True, overwrite=False)
-            if w.loc == "memory":
-                ro._cache = w.opt._cache
-            t2 = ro.search(*q)
-            for b in check_tree(t2, q):
-                bad.append(("cache_only:" + b, name, step))
-        except Exception as e:
-            bad.append(("cache_only-fails-on-stored:" + type(e).__name__,
-                        name, step, repr(e)[:200]))
-        if w.searches != n1:
-            bad.append(("cache_only-searched", name, step))
+        # cache_only reader on the same store: never searches, whatever the
+        # overwrite policy; with overwrite=False it must also find the entry
+        for ro_ow in sorted({False, w.ow}, key=str):
+            n1 = w.searches
+            try:
+                ro = w.make(cache_only=True, overwrite=ro_ow)
+                if w.loc == "memory":
+                    ro._cache = w.opt._cache
+                t2 = ro.search(*q)
+                for b in check_tree(t2, q):
+                    bad.append(("cache_only:" + b, name, step))
+            except KeyError as e:
+                if ro_ow is False:
+                    bad.append(("cache_only-fails-on-stored:KeyError", name,
+                                step, repr(e)[:200]))
+            except Exception as e:
+                bad.append(("cache_only-fails-on-stored:" + type(e).__name__,
+                            name, step, repr(e)[:200]))
+            if w.searches != n1:
+                bad.append(("cache_only-searched", name, step, str(ro_ow)))
         res.outcomes.add(hash((name, bool(before), searched,
                                tuple(map(tuple, tree.get_path())))))
     if w.dir:
